@@ -151,6 +151,17 @@ fn impl_items(items: &[syn::ImplItem]) -> Vec<Value> {
     out
 }
 
+fn flatten_use(t: &syn::UseTree, prefix: String, out: &mut Vec<Value>) {
+    let join = |p: &str, s: String| if p.is_empty() { s } else { format!("{}::{}", p, s) };
+    match t {
+        syn::UseTree::Path(p) => flatten_use(&p.tree, join(&prefix, p.ident.to_string()), out),
+        syn::UseTree::Name(n) => out.push(json!({"path": join(&prefix, n.ident.to_string()), "alias": Value::Null, "glob": false})),
+        syn::UseTree::Rename(r) => out.push(json!({"path": join(&prefix, r.ident.to_string()), "alias": r.rename.to_string(), "glob": false})),
+        syn::UseTree::Glob(_) => out.push(json!({"path": prefix, "alias": Value::Null, "glob": true})),
+        syn::UseTree::Group(g) => { for x in &g.items { flatten_use(x, prefix.clone(), out); } }
+    }
+}
+
 fn items_json(items: &[syn::Item], module: &str, out: &mut Vec<Value>) {
     for it in items {
         match it {
@@ -204,11 +215,15 @@ fn items_json(items: &[syn::Item], module: &str, out: &mut Vec<Value>) {
                 if is_test { continue; }
                 match &m.content {
                     Some((_, its)) => items_json(its, &sub, out),
-                    None => out.push(json!({"kind":"mod","module":module,"name":m.ident.to_string(),
+                    None => out.push(json!({"kind":"mod","module":module,"name":m.ident.to_string(),"vis":toks(&m.vis),
                                             "attrs":attrs_json(&m.attrs)})),
                 }
             }
-            syn::Item::Use(_) => {}
+            syn::Item::Use(u) => {
+                let mut paths = vec![];
+                flatten_use(&u.tree, String::new(), &mut paths);
+                out.push(json!({"kind":"use","module":module,"vis":toks(&u.vis),"paths":paths}));
+            }
             _ => {}
         }
     }
